@@ -424,7 +424,9 @@ MANIFEST = {
                    "IptablesConfigurator.Run + the rule builder, REDIRECT and TPROXY, IPv4 and IPv6, DNS capture, kube-virt interfaces, "
                    "owner-group filters, drop-invalid) evaluated under a netfilter semantics written from the iptables manual gives, for "
                    "EVERY configuration and EVERY packet, exactly the fate the policy prescribes (`fate_correct`); from it: no_loop, "
-                   "outbound_exact (IFF), inbound_exact (IFF, REDIRECT and TPROXY), loopback_alone, never_chain_loop, lo_journey_never_loops "
+                   "outbound_exact (IFF), inbound_exact (IFF, REDIRECT and TPROXY), loopback_alone, never_chain_loop, no_loop_narrow / "
+                   "delivery_not_looped (two genuine delivery loops through the call-to-self redirect are proved as witnesses and "
+                   "reproduced on the real rule text), lo_journey_never_loops "
                    "(never loop across the OUTPUT and PREROUTING hooks), rulesOf_wellFormed, v4_v6_same_policy, "
                    "proxy DNS not re-captured. The model is tied to /repo on every run: the real Run() output must equal the Lean "
                    "compiler's output line for line, and a Go reference interpreter over the real rule text must agree with both the "
